@@ -85,7 +85,8 @@ class C11(Prop):
                 ctx.fail("clear-failed", "clear refused: %r" % (out.exc,), case)
             A.destroy()
             case.resources.remove(A)
-            A = Index(Config(backend="file", overwrite=True, default_rule=op[1], rules={B(a): n for a, n in op[2]}))
+            A = Index(Config(backend="file", overwrite=True, default_rule=op[1], rules={a: n for a, n in op[2]},
+                             encoding=case.config.encoding))
             case.resources.append(A)
             st["A"] = A
             case.flag("clear")
